@@ -267,9 +267,33 @@ package store
 // Every table mutation of a write goes through the one transaction begun in the call; every path after Begin ends in
 // exactly one Commit or Rollback; an error is returned without a commit, success means exactly one commit.
 //@ extern data.(Point).CRC(p)
+// ---- newest point wins (C01) ------------------------------------------------------------------------------------
+// Identity of a point: its type and its key, an empty key meaning key "0". Collapse is trusted for the proofs below
+// (it iterates over a Go map) and its contract is checked on the real function by the bounded leg of C01.
+//@ spec func normKey(k string) string
+//@ axiom normKey_def: forall k string :: triggers(normKey(k)) ==> (normKey(k) == ite(k == "", "0", k))
+//@ spec func sameIdent(a data.Point, b data.Point) bool = a.Type == b.Type && normKey(a.Key) == normKey(b.Key)
 //@ extern data.(*Points).Collapse(ps)
 //@   modifies ps
 //@   realloc *ps
+//@   ensures forall i int :: 0 <= i && i < len(*ps) ==> (exists k int :: 0 <= k && k < old(len(*ps)) && (*ps)[i] == old((*ps)[k]))
+//@   ensures forall i int, j int :: 0 <= i && i < j && j < len(*ps) ==> !sameIdent((*ps)[i], (*ps)[j])
+//@   ensures forall k int :: 0 <= k && k < old(len(*ps)) ==> (exists i int :: 0 <= i && i < len(*ps) && sameIdent((*ps)[i], old((*ps)[k])) && ns(old((*ps)[k].Time)) <= ns((*ps)[i].Time))
+//@ spec func zeroT(t time.Time) bool = ns(t) == -6795364578871345152
+// fromBatch(w, p): the written point w is the batch point p with its key normalised (and a zero time replaced)
+//@ spec func fromBatch(w data.Point, p data.Point) bool = w.Type == p.Type && w.Key == normKey(p.Key) && bits64(w.Value) == bits64(p.Value) && w.Text == p.Text && w.Tombstone == p.Tombstone && w.Origin == p.Origin && sameSlice(w.Data, p.Data) && (!zeroT(p.Time) ==> w.Time == p.Time)
+// rowIs(db, j, ty, key): stored row j has that type and (stored, normalised) key
+//@ opaque func rowIs(db []data.Point, j int, ty string, key string) bool reads db
+//@ axiom rowIs_def reads db: forall db []data.Point, j int, ty string, key string :: rowIs(db, j, ty, key) == (db[j].Type == ty && db[j].Key == key)
+// firstRow(db, j, ty, key): row j is the first stored row of that identity
+//@ spec func firstRow(db []data.Point, j int, ty string, key string) bool = 0 <= j && j < len(db) && rowIs(db, j, ty, key) && (forall j2 int :: 0 <= j2 && j2 < j ==> !rowIs(db, j2, ty, key))
+//@ spec func noRow(db []data.Point, ty string, key string) bool = forall j int :: 0 <= j && j < len(db) ==> !rowIs(db, j, ty, key)
+// a written point either replaces the first stored row of its identity, which is not newer, or no row has its identity
+//@ spec func writeOK(w data.Point, wid string, db []data.Point, ids []string) bool = (exists j int :: firstRow(db, j, w.Type, w.Key) && ids[j] == wid && ns(db[j].Time) <= ns(w.Time)) || noRow(db, w.Type, w.Key)
+// a batch point must be written if it has a (non-zero) time and no stored row of its identity is newer
+//@ spec func mustWrite(p data.Point, db []data.Point) bool = !zeroT(p.Time) && (noRow(db, p.Type, normKey(p.Key)) || (exists j int :: firstRow(db, j, p.Type, normKey(p.Key)) && ns(db[j].Time) <= ns(p.Time)))
+// noFail(d): no database call has failed since the function was entered (given none had failed before)
+//@ spec func noFail(d *sql.DB) bool = !old(dbFailed(d)) ==> !dbFailed(d)
 //@ func checkPointValues
 //@   props C05
 //@   local points data.Points#1
@@ -284,11 +308,12 @@ package store
 //@   local sdb *store.DbSqlite#1
 //@   local tx *sql.Tx#1
 //@   local stmt *sql.Stmt#1
-//@   requires sdb != nil && tx != nil && txOpen(tx) && acyclic(sdb)
+//@   requires sdb != nil && tx != nil && txOpen(tx) && txDb(tx) == sdb.db && acyclic(sdb)
 //@   modifies state(sdb.db)
-//@   ensures [C04] txOpen(tx) && dbKept(sdb.db)
+//@   ensures [C04] txOpen(tx) && dbKept(sdb.db) && (res0 == nil ==> noFail(sdb.db))
 //@   loop 1:
-//@     invariant txOpen(tx) && stmt != nil && stmtTx(stmt) == tx && dbKept(sdb.db)
+//@     invariant txOpen(tx) && txDb(tx) == sdb.db && stmt != nil && stmtTx(stmt) == tx && dbKept(sdb.db) && noFail(sdb.db)
+//@     modifies state(sdb.db)
 //@ func (*DbSqlite).updateHashHelper
 //@   props C04, C05
 //@   local sdb *store.DbSqlite#1
@@ -299,16 +324,16 @@ package store
 //@   requires sdb != nil && tx != nil && txOpen(tx) && acyclic(sdb) && cache != nil
 //@   modifies state(sdb.db), cache
 //@   decreases rank(sdb, id)
-//@   ensures [C04] txOpen(tx) && dbKept(sdb.db)
+//@   ensures [C04] txOpen(tx) && dbKept(sdb.db) && (res0 == nil ==> noFail(sdb.db))
 //@   loop 1:
 //@     invariant -1 <= rangeindex && rangeindex < len(edges) || rangeindex == -1
-//@     invariant txOpen(tx) && dbKept(sdb.db)
+//@     invariant txOpen(tx) && dbKept(sdb.db) && noFail(sdb.db)
 //@     invariant forall k int :: 0 <= k && k < len(edges) ==> isEdge(sdb, id, edges[k].Up)
 //@     modifies state(sdb.db), cache
 //@     decreases len(edges) - rangeindex
 
 //@ func (*DbSqlite).nodePoints
-//@   props C04, C05
+//@   props C04, C05, C01
 //@   local sdb *store.DbSqlite#1
 //@   local points data.Points#1
 //@   local tx *sql.Tx#1
@@ -316,33 +341,40 @@ package store
 //@   local dbPointIDs []string#1
 //@   local writePoints data.Points#3
 //@   local writePointIDs []string#2
+//@   local pIn data.Point#2
+//@   local j int#1
 //@   local stmt *sql.Stmt#1
+//@   assert [C01] merge-written-from-batch: forall w int :: 0 <= w && w < len(writePoints) ==> (exists k int :: 0 <= k && k < len(points) && fromBatch(writePoints[w], points[k])) at "tx.Prepare(`INSERT INTO node_points(id, node_id, type, key, time, idx, value, text, data, tombstone, origin) VALUES(?, ?, ?, ?, ?, ?, ?, ?, ?, ?, ?) ON CONFLICT(id) DO UPDATE SET type = ?3, key = ?4, time = ?5, idx = ?6, value = ?7, text = ?8, data = ?9, tombstone = ?10, origin = ?11 `)"
 //@   requires sdb != nil && sdb.db != nil && acyclic(sdb)
 //@   modifies state(sdb.db), state(sql.Tx)
 //@   ensures [C04, C05] no-transaction-left-open: openTxs(sdb.db) == old(openTxs(sdb.db))
 //@   ensures [C05] refused-write-commits-nothing: res0 != nil ==> commits(sdb.db) == old(commits(sdb.db))
 //@   ensures [C04] accepted-write-is-committed: res0 == nil ==> commits(sdb.db) == old(commits(sdb.db)) + 1
+//@   ensures [C04] all-or-nothing: res0 == nil && !old(dbFailed(sdb.db)) ==> !dbFailed(sdb.db)
 //@   ensures [C05] nan-refused: (exists k int :: 0 <= k && k < len(points) && isNaN(points[k].Value)) ==> res0 != nil
 //@   loop 1:
-//@     invariant txOpen(tx) && txDb(tx) == sdb.db && openTxs(sdb.db) == old(openTxs(sdb.db)) + 1 && commits(sdb.db) == old(commits(sdb.db))
+//@     invariant txOpen(tx) && txDb(tx) == sdb.db && openTxs(sdb.db) == old(openTxs(sdb.db)) + 1 && commits(sdb.db) == old(commits(sdb.db)) && noFail(sdb.db)
 //@     invariant sinceLoop(dbPoints) && sinceLoop(dbPointIDs) && len(dbPoints) == len(dbPointIDs)
 //@     modifies dbPoints, dbPointIDs
 //@   loop 2:
 //@     invariant -1 <= rangeindex && rangeindex < len(points) || rangeindex == -1
-//@     invariant txOpen(tx) && txDb(tx) == sdb.db && openTxs(sdb.db) == old(openTxs(sdb.db)) + 1 && commits(sdb.db) == old(commits(sdb.db))
+//@     invariant txOpen(tx) && txDb(tx) == sdb.db && openTxs(sdb.db) == old(openTxs(sdb.db)) + 1 && commits(sdb.db) == old(commits(sdb.db)) && noFail(sdb.db)
 //@     invariant sinceLoop(writePoints) && sinceLoop(writePointIDs) && len(writePoints) == len(writePointIDs) && len(dbPoints) == len(dbPointIDs)
+//@     invariant [C01] written-from-batch: forall w int :: 0 <= w && w < len(writePoints) ==> (exists k int :: 0 <= k && k <= rangeindex && fromBatch(writePoints[w], points[k]))
+//@     invariant [C01] newest-wins: forall w int :: 0 <= w && w < len(writePoints) ==> writeOK(writePoints[w], writePointIDs[w], dbPoints, dbPointIDs)
+//@     invariant [C01] every-newer-point-written: forall k int :: 0 <= k && k <= rangeindex && mustWrite(points[k], dbPoints) ==> (exists w int :: 0 <= w && w < len(writePoints) && fromBatch(writePoints[w], points[k]))
 //@     modifies writePoints, writePointIDs
 //@     decreases len(points) - rangeindex
 //@   loop 3:
 //@     invariant -1 <= rangeindex && rangeindex < len(dbPoints) || rangeindex == -1
 //@     invariant len(writePoints) == len(writePointIDs) && len(dbPoints) == len(dbPointIDs)
-//@     invariant refOf(writePoints) == refOf(preloop(writePoints)) || sinceLoop(writePoints)
-//@     invariant refOf(writePointIDs) == refOf(preloop(writePointIDs)) || sinceLoop(writePointIDs)
-//@     modifies writePoints, writePointIDs
+//@     invariant sameSlice(writePoints, preloop(writePoints)) && sameSlice(writePointIDs, preloop(writePointIDs))
+//@     invariant [C01] forall j int :: 0 <= j && j <= rangeindex ==> !rowIs(dbPoints, j, pIn.Type, pIn.Key)
 //@     decreases len(dbPoints) - rangeindex
 //@   loop 4:
 //@     invariant -1 <= rangeindex && rangeindex < len(writePoints) || rangeindex == -1
-//@     invariant txOpen(tx) && txDb(tx) == sdb.db && stmt != nil && stmtTx(stmt) == tx && openTxs(sdb.db) == old(openTxs(sdb.db)) + 1 && commits(sdb.db) == old(commits(sdb.db)) && len(writePoints) == len(writePointIDs)
+//@     invariant txOpen(tx) && txDb(tx) == sdb.db && stmt != nil && stmtTx(stmt) == tx && openTxs(sdb.db) == old(openTxs(sdb.db)) + 1 && commits(sdb.db) == old(commits(sdb.db)) && noFail(sdb.db) && len(writePoints) == len(writePointIDs)
+//@     modifies state(sdb.db)
 //@     decreases len(writePoints) - rangeindex
 
 // reachU(db, x, a): a is x or an ancestor of x through any edges (no sentinel) - what isAncestor computes
@@ -360,11 +392,11 @@ package store
 //@   modifies state(sdb.db)
 //@   decreases rank(sdb, id)
 //@   assert [C05] self: reachU(sdb, id, id) at "sdb.edges(tx, \"SELECT * FROM edges WHERE down=?\", id)"
-//@   ensures [C05] txOpen(tx) && dbKept(sdb.db)
+//@   ensures [C05] txOpen(tx) && dbKept(sdb.db) && (res1 == nil ==> noFail(sdb.db))
 //@   ensures [C05] finds-every-ancestor: res1 == nil ==> (res0 <==> reachU(sdb, id, anc))
 //@   loop 1:
 //@     invariant -1 <= rangeindex && rangeindex < len(edges) || rangeindex == -1
-//@     invariant txOpen(tx) && dbKept(sdb.db) && id != anc
+//@     invariant txOpen(tx) && dbKept(sdb.db) && id != anc && noFail(sdb.db)
 //@     invariant forall k int :: 0 <= k && k < len(edges) ==> isEdge(sdb, id, edges[k].Up)
 //@     invariant forall j int :: 0 <= j && j <= rangeindex ==> !reachU(sdb, edges[j].Up, anc)
 //@     modifies state(sdb.db)
@@ -389,6 +421,7 @@ package store
 //@   ensures [C05] graph-stays-acyclic: acyclic(sdb)
 //@   ensures [C05] refused-write-commits-nothing: res0 != nil ==> commits(sdb.db) == old(commits(sdb.db))
 //@   ensures [C04] accepted-write-is-committed: res0 == nil ==> commits(sdb.db) == old(commits(sdb.db)) + 1
+//@   ensures [C04] all-or-nothing: res0 == nil && !old(dbFailed(sdb.db)) ==> !dbFailed(sdb.db)
 //@   ensures [C05] refused-write-keeps-root-id: res0 != nil ==> sdb.meta.RootID == old(sdb.meta.RootID)
 //@   ensures [C05] self-edge-refused: nodeID0 == parentID0 ==> res0 != nil
 //@   ensures [C05] nan-refused: (exists k int :: 0 <= k && k < len(points0) && isNaN(points0[k].Value)) ==> res0 != nil
@@ -403,12 +436,12 @@ package store
 //@     invariant forall k int :: 0 <= k && k <= rangeindex ==> !(points[k].Type == "tombstone" && points[k].Value > 0.0)
 //@     decreases len(points) - rangeindex
 //@   loop 2:
-//@     invariant txOpen(tx) && txDb(tx) == sdb.db && openTxs(sdb.db) == old(openTxs(sdb.db)) + 1 && commits(sdb.db) == old(commits(sdb.db))
+//@     invariant txOpen(tx) && txDb(tx) == sdb.db && openTxs(sdb.db) == old(openTxs(sdb.db)) + 1 && commits(sdb.db) == old(commits(sdb.db)) && noFail(sdb.db)
 //@     invariant sinceLoop(dbPoints) && sinceLoop(dbPointIDs) && len(dbPoints) == len(dbPointIDs)
 //@     modifies dbPoints, dbPointIDs
 //@   loop 3:
 //@     invariant -1 <= rangeindex && rangeindex < len(points) || rangeindex == -1
-//@     invariant txOpen(tx) && txDb(tx) == sdb.db && openTxs(sdb.db) == old(openTxs(sdb.db)) + 1 && commits(sdb.db) == old(commits(sdb.db))
+//@     invariant txOpen(tx) && txDb(tx) == sdb.db && openTxs(sdb.db) == old(openTxs(sdb.db)) + 1 && commits(sdb.db) == old(commits(sdb.db)) && noFail(sdb.db)
 //@     invariant sinceLoop(writePoints) && sinceLoop(writePointIDs) && len(writePoints) == len(writePointIDs) && len(dbPoints) == len(dbPointIDs)
 //@     invariant nodeType == "" || (exists k int :: 0 <= k && k <= rangeindex && points[k].Type == "nodeType" && points[k].Text == nodeType)
 //@     modifies writePoints, writePointIDs
@@ -422,10 +455,11 @@ package store
 //@     decreases len(dbPoints) - rangeindex
 //@   loop 5:
 //@     invariant -1 <= rangeindex && rangeindex < len(writePoints) || rangeindex == -1
-//@     invariant txOpen(tx) && txDb(tx) == sdb.db && stmt != nil && stmtTx(stmt) == tx && openTxs(sdb.db) == old(openTxs(sdb.db)) + 1 && commits(sdb.db) == old(commits(sdb.db)) && len(writePoints) == len(writePointIDs)
+//@     invariant txOpen(tx) && txDb(tx) == sdb.db && stmt != nil && stmtTx(stmt) == tx && openTxs(sdb.db) == old(openTxs(sdb.db)) + 1 && commits(sdb.db) == old(commits(sdb.db)) && noFail(sdb.db) && len(writePoints) == len(writePointIDs)
+//@     modifies state(sdb.db)
 //@     decreases len(writePoints) - rangeindex
 //@   loop 6:
-//@     invariant txOpen(tx) && txDb(tx) == sdb.db && openTxs(sdb.db) == old(openTxs(sdb.db)) + 1 && commits(sdb.db) == old(commits(sdb.db))
+//@     invariant txOpen(tx) && txDb(tx) == sdb.db && openTxs(sdb.db) == old(openTxs(sdb.db)) + 1 && commits(sdb.db) == old(commits(sdb.db)) && noFail(sdb.db)
 
 // C04: the journal and synchronisation modes the crash guarantee rests on (SQLite: WAL + synchronous=NORMAL keeps
 // committed transactions across a process crash) are the reviewed ones.
